@@ -39,6 +39,8 @@ def run(F, chk):
     check_tables(F, dec, D1)
     D3 = chk.rule('D3', 'every string argument text pushed into the rendering passed through the CR/LF/TAB -> space replacement')
     check_string_sanitised(F, D3)
+    D4 = chk.rule('D4', 'encoder: every value narrowed into / added within the 16-bit length prefix has an upper bound <= 65535 from the dominating guards')
+    check_length_prefix(F, D4)
 
 
 def vars_of(e):
@@ -233,23 +235,40 @@ def check_tables(F, dec, D1):
         type_infos = []
         value_bytes = []
         len_width = []
-        for blk in b.calls():
-            t = blk.term
-            p = t.callee.path
-            m = re.match(r'core::num::<impl (\w+)>::to_ne_bytes$', p) or re.match(r'std::\w+::<impl (\w+)>::to_ne_bytes$', p) or re.search(r'<impl (\w+)>::to_ne_bytes$', p)
-            if m:
-                ty = m.group(1)
-                arg = E.operand(t.args[0])
-                v = fold(arg)
-                if v is not None and ty == 'u32':
-                    type_infos.append(v)
-                elif ty == 'u16' and name in ('str', 'bytes'):
-                    len_width.append(2)
-                elif ty in WIDTH:
-                    if name in ('str', 'bytes'):
-                        len_width.append(WIDTH[ty])
-                    else:
-                        value_bytes.append(WIDTH[ty])
+
+        def scan(fb, fE, bind, depth):
+            # to_ne_bytes calls of the row function and (one level) of inherent Serializer helpers it calls; a helper's
+            # parameter is bound to the argument expression of the call site
+            for blk in fb.calls():
+                t = blk.term
+                p = t.callee.path
+                m = re.match(r'core::num::<impl (\w+)>::to_ne_bytes$', p) or re.match(r'std::\w+::<impl (\w+)>::to_ne_bytes$', p) or re.search(r'<impl (\w+)>::to_ne_bytes$', p)
+                if m:
+                    ty = m.group(1)
+                    arg = fE.operand(t.args[0])
+                    if isinstance(arg, tuple) and arg[0] == 'place' and len(arg) == 2 and arg[1] in bind:
+                        arg = bind[arg[1]]
+                    v = fold(arg)
+                    if v is not None and ty == 'u32':
+                        type_infos.append(v)
+                    elif ty == 'u16' and name in ('str', 'bytes'):
+                        len_width.append(2)
+                    elif ty in WIDTH:
+                        if name in ('str', 'bytes'):
+                            len_width.append(WIDTH[ty])
+                        else:
+                            value_bytes.append(WIDTH[ty])
+                elif depth == 0 and p.startswith(SER + '::') and F.get(p) is not None:
+                    hb = F.get(p)
+                    hE = ExprBuilder(CFG(hb), fold_named=True)
+                    hbind = {}
+                    for i, a in enumerate(t.args):
+                        nm = hb.name_of(i + 1)
+                        if nm:
+                            hbind[nm] = fE.operand(a)
+                    D1.fn(hb.path)
+                    scan(hb, hE, hbind, 1)
+        scan(b, E, {}, 0)
         D1.sites += 1
         if len(type_infos) != 1:
             D1.violation(('encoder-typeinfo', b.path), 'cannot extract exactly one constant type word written by %s (found %s)' % (b.path, type_infos), where=b.loc(None))
@@ -305,3 +324,102 @@ def check_string_sanitised(F, D3):
             D3.violation(('string-not-sanitised', b.path, '+'.join(sorted(set(c.split('::')[-1] for c in calls if DECODE_STR.search(c))))),
                          'a string argument decoded from payload bytes is pushed into the text at %s without passing the CR/LF/TAB replacement: control characters would show up raw in the canonical text' % b.loc(t.sp), where=b.loc(t.sp))
     D3.floor('string pushes in the argument renderer', n, 2)
+
+
+# ---------------------------------------------------------------------------------------------
+# D4: the 16-bit length prefix cannot wrap
+
+INT_BITS = {'u8': 8, 'u16': 16, 'u32': 32, 'u64': 64, 'usize': 64, 'i8': 7, 'i16': 15, 'i32': 31, 'i64': 63, 'isize': 63}
+
+
+def upper_bound(e, known, depth=0):
+    """least upper bound derivable for expression e from constants, bool conversions, additions and the dominating guards"""
+    INF = float('inf')
+    if depth > 8:
+        return INF
+    best = INF
+    se = show(e)
+    for (c, truth, D) in known:
+        if not (isinstance(c, tuple) and c[0] == 'bin' and truth is True):
+            continue
+        op, a, b = c[1], c[2], c[3]
+        ka, kb = fold(a), fold(b)
+        if show(a) == se and kb is not None:
+            if op == 'Le':
+                best = min(best, kb)
+            elif op == 'Lt':
+                best = min(best, kb - 1)
+            elif op == 'Eq':
+                best = min(best, kb)
+        if show(b) == se and ka is not None:
+            if op == 'Ge':
+                best = min(best, ka)
+            elif op == 'Gt':
+                best = min(best, ka - 1)
+    v = fold(e)
+    if v is not None:
+        return min(best, v)
+    if isinstance(e, tuple):
+        if e[0] == 'cast':
+            inner = upper_bound(e[1], known, depth + 1)
+            return min(best, inner)
+        if e[0] == 'call' and re.search(r'From<bool>>::from$|::from$', e[1]) and e[2] and 'bool' in e[1]:
+            return min(best, 1)
+        if e[0] == 'bin' and e[1] == 'Add':
+            return min(best, upper_bound(e[2], known, depth + 1) + upper_bound(e[3], known, depth + 1))
+        if e[0] == 'bin' and e[1] == 'BitAnd':
+            ks = [k for k in (fold(e[2]), fold(e[3])) if k is not None]
+            if ks:
+                return min(best, min(ks))
+    return best
+
+
+def check_length_prefix(F, D4):
+    """In the verbose-payload encoder a length goes into a 16-bit field: every narrowing cast of a non-constant integer to
+    u16 and every u16 addition must have an upper bound <= 65535 derivable from the dominating guards (otherwise a
+    string of exactly the limit length wraps to 0 and the decoder sees different arguments)."""
+    import guards
+    bodies = [b for b in F.order if b.crate == 'lib' and 'ser_verb_payload' in b.path and 'tests' not in b.path]
+    D4.floor('encoder bodies', len(bodies), 10)
+    n = 0
+    for b in bodies:
+        cfg = None
+        for blk in b.blocks:
+            if blk.cleanup:
+                continue
+            sites = []
+            for s in blk.stmts:
+                if s.k == 'assign' and s.rv['k'] == 'cast' and s.rv.get('t') == 'u16':
+                    o = Operand(s.rv['o'])
+                    if o.is_const or (o.ty or '') in ('u8', 'u16', 'bool'):
+                        continue
+                    sites.append(('cast', s, None))
+            if blk.term.k == 'assert' and blk.term.d['ak'] == 'Overflow(Add)':
+                ops = [Operand(o) for o in blk.term.d['ops']]
+                if any((o.ty or '') == 'u16' for o in ops):
+                    sites.append(('add', None, ops))
+            if not sites:
+                continue
+            cfg = cfg or CFG(b)
+            E = ExprBuilder(cfg, fold_named=True)
+            known = guards.known(cfg, E, blk.i)
+            for (kind, s, ops) in sites:
+                n += 1
+                D4.sites += 1
+                D4.fn(b.path)
+                if kind == 'cast':
+                    e = E.operand(Operand(s.rv['o']))
+                    ub = upper_bound(e, known)
+                    where = b.loc(s.sp)
+                    what = '%s as u16' % show(e)[:60]
+                else:
+                    e = ('bin', 'Add', E.operand(ops[0]), E.operand(ops[1]))
+                    ub = upper_bound(e, known)
+                    where = b.loc(blk.term.sp)
+                    what = 'u16 addition %s' % show(e)[:60]
+                if ub <= 0xffff:
+                    D4.ok(sample={'at': where, 'expression': what, 'upper_bound': ub})
+                else:
+                    D4.violation(('length-may-wrap', b.path, kind), 'the encoder computes %s at %s but the dominating guards bound it only by %s: a value above 65535 wraps in the 16-bit length field and the decoder reads different arguments' %
+                                 (what, where, 'nothing' if ub == float('inf') else ub), where=where)
+    D4.floor('16-bit length computations in the encoder', n, 1)
